@@ -639,7 +639,11 @@ Fixpoint spec_errors (gap_aware : nat) (w : world) (decls : list cdecl) (ops : l
       let w' := match step_def w op with Ok w1 => w1 | Err _ => fail_def w op end in
       let decls' := match op with
                     | DefClass d => decls ++ [d]
-                    | DefRedecorate k name dc => update_nth decls k (fun d => redecorate_decl d name dc)
+                    | DefRedecorate k name dc =>
+                        match err with
+                        | Some _ => decls             (* the decoration raised: nothing was added *)
+                        | None => update_nth decls k (fun d => redecorate_decl d name dc)
+                        end
                     | DefFunction _ => decls
                     end in
       ok && spec_errors gap_aware w' decls' rest hrest
